@@ -101,7 +101,11 @@ def run_case(ctx: Ctx, case, terms, metas, tag):
     for rec in recs:
         if "skipped" in rec:
             ctx.hist("skipped_session", rec["skipped"][:60])
-            if "resulted in no record pairs" not in rec["skipped"] and not getattr(ctx, "_raised_reported", False):
+            brl = {x.lower() for x in rec["br_cols"]}
+            nothing_to_train = all({x.lower() for x in c["cols"]} & brl for c in rec["before"]["cmps"])
+            if nothing_to_train:
+                ctx.hist("skipped_every_comparison_uses_a_rule_column", True)   # loud SQL error, nothing to estimate
+            elif "resulted in no record pairs" not in rec["skipped"] and not getattr(ctx, "_raised_reported", False):
                 ctx._raised_reported = True
                 # the property quantifies over every rule producing at least one pair: training must not raise
                 small = dict(case, sessions=case["sessions"][: rec["session"] + 1])
